@@ -438,10 +438,12 @@ theorem inv_afterCloseP (s : St) (h : Inv s) : Inv (afterCloseP s).1 := by
     · rename_i hc
       simp only [Bool.and_eq_true, List.isEmpty_iff] at hc
       have hl : s.live = [] := hc.2
-      refine inv_armTimer _ (inv_release _ (inv_congr s _ h rfl rfl rfl rfl rfl rfl rfl)) ?_
-      have : ({ s with our := .idle, their := .idle } : St).release.live = [] := by
-        unfold St.release; split <;> simp [hl]
-      simp [St.busy, this]
+      split
+      · refine inv_armTimer _ (inv_release _ (inv_congr s _ h rfl rfl rfl rfl rfl rfl rfl)) ?_
+        have : ({ s with our := .idle, their := .idle } : St).release.live = [] := by
+          unfold St.release; split <;> simp [hl]
+        simp [St.busy, this]
+      · exact inv_release _ (inv_congr s _ h rfl rfl rfl rfl rfl rfl rfl)
     · exact inv_release _ (inv_congr s _ h rfl rfl rfl rfl rfl rfl rfl)
   · exact h
 
